@@ -123,6 +123,12 @@ Proof.
           intros H; inversion H; subst; clear H; unfold places;
           cbn [ps q pend l_drop l_exp l_done l_disc arrival_ind];
           rewrite ?transit_app, ?service_app. cbn. unfold ind in *. lia.
+      * destruct (zget y (dls (ps w)) <? now); cbn [existsb is_cont orb app];
+          intros H; inversion H; subst; clear H; unfold places;
+          cbn [ps q pend l_drop l_exp l_done l_disc arrival_ind];
+          rewrite ?transit_app, ?service_app.
+        -- destruct (has_capacity _); cbn; unfold ind in *; lia.
+        -- cbn. unfold ind in *. lia.
     + intros H; inversion H; subst; clear H; unfold places;
         cbn [ps q pend l_drop l_exp l_done l_disc arrival_ind app];
         rewrite ?transit_app, ?service_app.
@@ -222,6 +228,12 @@ Proof.
           cbn [ps acc drp fin rej act pend l_off l_drop l_done l_disc]; intros (Ha & Hd & Hf & Hr & Hs);
           rewrite ?service_ids_app, ?zlen_app, ?zlen_cons.
         cbn [service_ids]. rewrite zlen_cons. change (zlen (@nil Z)) with 0; lia.
+      * destruct (zget y (dls (ps w)) <? now); cbn [existsb is_cont orb app];
+          intros H; inversion H; subst; clear H;
+          cbn [ps acc drp fin rej act pend l_off l_drop l_done l_disc]; intros (Ha & Hd & Hf & Hr & Hs);
+          rewrite ?service_ids_app, ?zlen_app, ?zlen_cons.
+        -- destruct (has_capacity _); cbn [service_ids]; change (zlen (@nil Z)) with 0; lia.
+        -- cbn [service_ids]. rewrite zlen_cons. change (zlen (@nil Z)) with 0; lia.
     + intros H; inversion H; subst; clear H;
         cbn [ps acc drp fin rej act pend l_off l_drop l_done l_disc app]; intros (Ha & Hd & Hf & Hr & Hs);
         rewrite ?service_ids_app, ?zlen_app, ?zlen_cons.
@@ -293,7 +305,7 @@ Proof.
         + inversion E; reflexivity.
         + destruct (pol_pop now (q (ps w))) as [[q' r] ex]. inversion E; reflexivity.
         + inversion E; reflexivity.
-        + destruct (kind (ps w)); [destruct (lim (ps w) <=? act (ps w))|]; cbn [existsb is_cont orb] in E; inversion E; reflexivity.
+        + destruct (kind (ps w)); [destruct (lim (ps w) <=? act (ps w))| |destruct (zget x (dls (ps w)) <? now)]; cbn [existsb is_cont orb] in E; inversion E; reflexivity.
         + inversion E; reflexivity. }
     rewrite <- H0. apply IH; auto. destruct l; cbn in Hn; tauto. }
   specialize (Hlim _ _ _ Hr Hn). cbn in Hlim. lia.
@@ -346,4 +358,166 @@ Proof.
   destruct (wrun (w0 WServer (PFifo None []) 2) strand_witness) as [w|] eqn:E; [|vm_compute in E; discriminate].
   specialize (H w ltac:(lia) ltac:(cbn; exact I) eq_refl).
   vm_compute in E. inversion E; subst. cbn in H. specialize (H eq_refl ltac:(lia)). lia.
+Qed.
+
+(* ------------------------------------------------------------------ *)
+(** * Partial no-stranding: an item never waits with a completely idle worker *)
+
+Definition busy_or_pending (w : world) : Prop :=
+  0 < pol_len (q (ps w)) -> 1 <= act (ps w) \/ exists e, In e (pend w) /\ is_cont e = false.
+
+Definition live_inv (w : world) : Prop :=
+  pol_wf (q (ps w)) /\ 1 <= lim (ps w) /\ counted w /\ busy_or_pending w.
+
+Lemma has_capacity_false s : has_capacity s = false -> lim s <= act s.
+Proof. unfold has_capacity. intros H. apply Z.ltb_ge in H. exact H. Qed.
+
+Lemma wstep_live w l w' out :
+  wstep w l = Some (w', out) -> (match l with LSetLimit _ => False | _ => True end) ->
+  live_inv w -> live_inv w'.
+Proof.
+  intros Hstep Hl (Hwf & Hlim & Hc & Hb).
+  pose proof (wstep_counted _ _ _ _ Hstep Hc) as Hc'.
+  unfold live_inv. cut (pol_wf (q (ps w')) /\ 1 <= lim (ps w') /\ busy_or_pending w'); [tauto|].
+  destruct Hc as (_ & _ & _ & _ & Hact).
+  pose proof (zlen_nonneg (service_ids (pend w))) as Hnn.
+  unfold busy_or_pending in *. unfold wstep in Hstep.
+  destruct l as [balk it|now e|n]; [| |contradiction].
+  - cbn [pstep] in Hstep. destruct (pol_push balk it (q (ps w))) as [q' ok] eqn:Ep.
+    pose proof (push_wf _ _ _ _ _ Hwf Ep) as Hwf'. pose proof (len_nonneg _ Hwf) as Hn.
+    destruct ok; inversion Hstep; subst; clear Hstep; cbn [ps q lim act pend]; repeat split; auto.
+    + intros _. destruct (pol_len (q (ps w)) =? 0) eqn:E0.
+      * right. exists PNotify. split; [apply in_or_app; right; now left|reflexivity].
+      * apply Z.eqb_neq in E0. destruct Hb as [Hb|[e [Hin He]]]; [lia|now left|].
+        right. exists e. split; [apply in_or_app; now left|exact He].
+    + apply push_reject_len in Ep. rewrite Ep, app_nil_r. exact Hb.
+  - destruct (remove_one e (pend w)) as [rest|] eqn:Er; [|discriminate].
+    pose proof (remove_one_service_len _ _ _ Er) as Hsl.
+    pose proof (zlen_nonneg (service_ids rest)) as Hnr.
+    destruct e as [| |y|y|y]; cbn [pstep is_cont] in *.
+    + inversion Hstep; subst; clear Hstep; cbn [ps q lim act pend]. repeat split; auto.
+      intros Hq. destruct (has_capacity (ps w)) eqn:Ecap.
+      * right. exists PPoll. split; [apply in_or_app; right; now left|reflexivity].
+      * apply has_capacity_false in Ecap. left. lia.
+    + destruct (pol_pop now (q (ps w))) as [[q' r] ex] eqn:Ep.
+      pose proof (pop_wf _ _ _ _ _ Hwf Ep) as Hwf'.
+      inversion Hstep; subst; clear Hstep; cbn [ps q set_q lim act pend]. repeat split; auto.
+      intros Hq. destruct r as [it|].
+      * right. exists (PDeliver (iid it)). split; [apply in_or_app; right; now left|reflexivity].
+      * apply pop_none_len in Ep; [lia|exact Hwf].
+    + inversion Hstep; subst; clear Hstep; cbn [ps q lim act pend]. repeat split; auto.
+      intros _. right. exists (PPayload y). split; [apply in_or_app; right; now left|reflexivity].
+    + destruct (kind (ps w)).
+      * destruct (lim (ps w) <=? act (ps w)) eqn:E; cbn [existsb is_cont orb app] in Hstep;
+          inversion Hstep; subst; clear Hstep; cbn [ps q lim act pend]; repeat split; auto; intros _; left.
+        -- apply Z.leb_le in E. lia.
+        -- lia.
+      * cbn [existsb is_cont orb app] in Hstep.
+        inversion Hstep; subst; clear Hstep; cbn [ps q lim act pend]; repeat split; auto; intros _; left. lia.
+      * destruct (zget y (dls (ps w)) <? now); cbn [existsb is_cont orb app] in Hstep.
+        -- match type of Hstep with context [if has_capacity ?s then _ else _] => destruct (has_capacity s) eqn:Ecap end;
+             inversion Hstep; subst; clear Hstep; cbn [ps q lim act pend app]; repeat split; auto; intros _.
+           ++ right. exists PPoll. split; [apply in_or_app; right; now left|reflexivity].
+           ++ apply has_capacity_false in Ecap. cbn [lim act] in Ecap. left. lia.
+        -- inversion Hstep; subst; clear Hstep; cbn [ps q lim act pend]; repeat split; auto; intros _; left. lia.
+    + match type of Hstep with context [if has_capacity ?s then _ else _] => destruct (has_capacity s) eqn:Ecap end;
+        inversion Hstep; subst; clear Hstep; cbn [ps q lim act pend app]; repeat split; auto; intros _.
+      * right. exists PPoll. split; [apply in_or_app; right; now left|reflexivity].
+      * apply has_capacity_false in Ecap. cbn [lim act] in Ecap. left. lia.
+Qed.
+
+Lemma wrun_live : forall ls w w', wrun w ls = Some w' -> no_setlimit ls -> live_inv w -> live_inv w'.
+Proof.
+  induction ls as [|l ls IH]; cbn [wrun]; intros w w' H Hn Hb.
+  - now inversion H; subst.
+  - destruct (wstep w l) as [[w1 out]|] eqn:E; [|discriminate].
+    eapply IH; eauto.
+    + destruct l; cbn in Hn; tauto.
+    + eapply wstep_live; eauto. destruct l; cbn in Hn; tauto.
+Qed.
+
+Lemma quiescent_no_pending w e : quiescent w = true -> In e (pend w) -> is_cont e = true.
+Proof. unfold quiescent. rewrite forallb_forall. auto. Qed.
+
+(** PARTIAL no-stranding, every policy, both worker kinds, every schedule: when
+    nothing of the pipeline is pending at the current instant (only service
+    completions are outstanding) and an item waits, at least one item is in
+    service — so the next completion polls.  With one slot this is the full
+    clause. *)
+Theorem no_stranding_partial : forall k p limit ls w,
+  pol_wf p -> pol_len p = 0 -> 1 <= limit -> no_setlimit ls -> wrun (w0 k p limit) ls = Some w ->
+  quiescent w = true -> 0 < pol_len (q (ps w)) -> 1 <= act (ps w).
+Proof.
+  intros k p limit ls w Hwf Hp Hl Hn Hr Hq Hd.
+  assert (H0 : live_inv (w0 k p limit)).
+  { split; [exact Hwf|]. split; [exact Hl|]. split; [apply counted_w0|].
+    unfold busy_or_pending, w0, ps0. cbn. lia. }
+  pose proof (wrun_live _ _ _ Hr Hn H0) as (_ & _ & _ & Hb).
+  destruct (Hb Hd) as [Ha|[e [Hin He]]]; [exact Ha|].
+  rewrite (quiescent_no_pending _ _ Hq Hin) in He. discriminate.
+Qed.
+
+(** One slot (Server): the full no-stranding clause holds. *)
+Corollary no_stranding_single_slot : forall p ls w,
+  pol_wf p -> pol_len p = 0 -> no_setlimit ls -> wrun (w0 WServer p 1) ls = Some w ->
+  quiescent w = true -> 0 < pol_len (q (ps w)) -> lim (ps w) <= act (ps w).
+Proof.
+  intros p ls w Hwf Hp Hn Hr Hq Hd.
+  assert (H1 : 1 <= 1) by lia. pose proof (no_stranding_partial WServer p 1 ls w Hwf Hp H1 Hn Hr Hq Hd).
+  assert (H2 : 0 <= 1) by lia. pose proof (concurrency_bound p 1 ls w H2 Hn Hr) as (_ & _ & Hlim). lia.
+Qed.
+
+(** "Work in service never exceeds the concurrency limit" for EVERY worker
+    kind: FALSE for the unguarded workers (ShiftedServer increments [_active]
+    without a check), by the same double poll
+    (corpus/C08/pipeline.unguarded_over_dispatch.json). *)
+Definition unguarded_bound_statement : Prop :=
+  forall k limit ls w, 1 <= limit -> no_setlimit ls ->
+    wrun (w0 k (PFifo None []) limit) ls = Some w -> act (ps w) <= lim (ps w).
+
+Lemma unguarded_bound_refuted : ~ unguarded_bound_statement.
+Proof.
+  intros H. specialize (H WShift 1 overpoll_witness).
+  destruct (wrun (w0 WShift (PFifo None []) 1) overpoll_witness) as [w|] eqn:E; [|vm_compute in E; discriminate].
+  specialize (H w ltac:(lia) ltac:(cbn; exact I) eq_refl).
+  vm_compute in E. inversion E; subst. cbn in H. lia.
+Qed.
+
+(** The partial no-stranding theorem does NOT extend to schedules that change
+    the limit: an item that arrived while the capacity was 0 stays in the queue
+    with an idle worker after the capacity is raised — nothing polls
+    (corpus/C08/pipeline.strand_capacity_raised.json). *)
+Definition capacity_change_statement : Prop :=
+  forall limit ls w, 0 <= limit -> wrun (w0 WShift (PFifo None []) limit) ls = Some w ->
+    quiescent w = true -> 0 < pol_len (q (ps w)) -> 1 <= lim (ps w) -> 1 <= act (ps w).
+
+Definition raise_witness : list wlabel := [LArrive false (it0 0); LFire 0 PNotify; LSetLimit 2].
+
+Lemma capacity_change_refuted : ~ capacity_change_statement.
+Proof.
+  intros H. specialize (H 0 raise_witness).
+  destruct (wrun (w0 WShift (PFifo None []) 0) raise_witness) as [w|] eqn:E; [|vm_compute in E; discriminate].
+  specialize (H w ltac:(lia) eq_refl).
+  vm_compute in E. inversion E; subst. cbn in H. specialize (H eq_refl ltac:(lia) ltac:(lia)). lia.
+Qed.
+
+(* ------------------------------------------------------------------ *)
+(** * The hypotheses of the conditional theorems are satisfiable *)
+
+Example conservation_hyps : exists w,
+  pol_ids (PFifo None []) = [] /\ wrun (w0 WServer (PFifo None []) 1) overpoll_witness = Some w /\
+  NoDup (arrivals overpoll_witness) /\ places w 1 = 1 /\ l_disc w = [1].
+Proof.
+  eexists. split; [reflexivity|]. split; [vm_compute; reflexivity|]. split.
+  - cbn. repeat constructor; cbn; intuition discriminate.
+  - vm_compute. split; reflexivity.
+Qed.
+
+Example stranding_hyps : exists w,
+  pol_wf (PFifo None []) /\ pol_len (PFifo None []) = 0 /\ no_setlimit strand_witness /\
+  wrun (w0 WServer (PFifo None []) 2) strand_witness = Some w /\
+  quiescent w = true /\ 0 < pol_len (q (ps w)) /\ act (ps w) = 1.
+Proof.
+  eexists. split; [exact I|]. split; [reflexivity|]. split; [cbn; exact I|].
+  split; [vm_compute; reflexivity|]. vm_compute. repeat split; congruence.
 Qed.
